@@ -3,6 +3,8 @@
 package message
 
 import (
+	"io"
+
 	"github.com/inbucket/inbucket/v3/pkg/extension"
 	"github.com/inbucket/inbucket/v3/pkg/extension/event"
 	"github.com/inbucket/inbucket/v3/pkg/policy"
@@ -10,6 +12,7 @@ import (
 )
 
 var _ policy.Recipient
+var _ io.Reader
 var _ storage.Store
 var _ extension.Host
 var _ event.InboundMessage
@@ -149,3 +152,129 @@ func ghost_emitted(eb *extension.AsyncEventBroker[event.MessageMetadata]) vcSeq[
 //@   loop 4: decreases len(inbound.Mailboxes) - ridx
 //@   uses lemma_cnt_step lemma_cnt_bounds lemma_cnt_lt
 //@   serves C01 C16 C17
+
+// ---------------------------------------------------------------------------------------------
+// C14: the Manager interface as the HTTP handlers and the Go client rely on it.
+
+// Ghost call log of a Manager: how often each operation was requested, the mailbox / id of the most
+// recent request, and what the most recent GetMessage / SourceReader returned.
+func ghost_nGetMsg(m Manager) int      { panic("ghost") }
+func ghost_nGetMeta(m Manager) int     { panic("ghost") }
+func ghost_nMarkSeen(m Manager) int    { panic("ghost") }
+func ghost_nPurge(m Manager) int       { panic("ghost") }
+func ghost_nRemove(m Manager) int      { panic("ghost") }
+func ghost_nSource(m Manager) int      { panic("ghost") }
+func ghost_argBox(m Manager) string    { panic("ghost") }
+func ghost_argID(m Manager) string     { panic("ghost") }
+func ghost_lastGot(m Manager) *Message { panic("ghost") }
+func ghost_lastErr(m Manager) error    { panic("ghost") }
+func ghost_lastName(m Manager) string  { panic("ghost") }
+
+func Ghost_nGetMsg(m Manager) int      { return ghost_nGetMsg(m) }
+func Ghost_nGetMeta(m Manager) int     { return ghost_nGetMeta(m) }
+func Ghost_nMarkSeen(m Manager) int    { return ghost_nMarkSeen(m) }
+func Ghost_nPurge(m Manager) int       { return ghost_nPurge(m) }
+func Ghost_nRemove(m Manager) int      { return ghost_nRemove(m) }
+func Ghost_nSource(m Manager) int      { return ghost_nSource(m) }
+func Ghost_argBox(m Manager) string    { return ghost_argBox(m) }
+func Ghost_argID(m Manager) string     { return ghost_argID(m) }
+func Ghost_lastGot(m Manager) *Message { return ghost_lastGot(m) }
+func Ghost_lastErr(m Manager) error    { return ghost_lastErr(m) }
+func Ghost_lastName(m Manager) string  { return ghost_lastName(m) }
+
+// A message handed out by the manager can be rendered: it has a parsed envelope with a root part.
+//@ pred Spec_msgOK(m *Message) bool = m != nil && m.env != nil && m.env.Root != nil
+
+//@ iface Manager.MailboxForAddress(self Manager, address string) (name string, err error)
+//@   modifies ghost_lastName(self)
+//@   ensures ghost_lastName(self) == name
+
+// GetMessage: a message or an error, never neither; a message that does not exist is ErrNotExist.
+//@ iface Manager.GetMessage(self Manager, mailbox string, id string) (m *Message, err error)
+//@   modifies ghost_nGetMsg(self), ghost_argBox(self), ghost_argID(self), ghost_lastGot(self), ghost_lastErr(self)
+//@   ensures (m != nil) != (err != nil)
+//@   ensures m != nil ==> Spec_msgOK(m)
+//@   ensures ghost_nGetMsg(self) == old(ghost_nGetMsg(self)) + 1 && ghost_argBox(self) == mailbox && ghost_argID(self) == id
+//@   ensures ghost_lastGot(self) == m && ghost_lastErr(self) == err
+
+//@ iface Manager.GetMetadata(self Manager, mailbox string) (r []*event.MessageMetadata, err error)
+//@   modifies ghost_nGetMeta(self), ghost_argBox(self)
+//@   ensures err == nil ==> forall k int :: { r[k] } 0 <= k && k < len(r) ==> r[k] != nil
+//@   ensures ghost_nGetMeta(self) == old(ghost_nGetMeta(self)) + 1 && ghost_argBox(self) == mailbox
+
+//@ iface Manager.MarkSeen(self Manager, mailbox string, id string) (err error)
+//@   modifies ghost_nMarkSeen(self), ghost_argBox(self), ghost_argID(self), ghost_lastErr(self)
+//@   ensures ghost_nMarkSeen(self) == old(ghost_nMarkSeen(self)) + 1 && ghost_argBox(self) == mailbox && ghost_argID(self) == id && ghost_lastErr(self) == err
+
+//@ iface Manager.PurgeMessages(self Manager, mailbox string) (err error)
+//@   modifies ghost_nPurge(self), ghost_argBox(self), ghost_lastErr(self)
+//@   ensures ghost_nPurge(self) == old(ghost_nPurge(self)) + 1 && ghost_argBox(self) == mailbox && ghost_lastErr(self) == err
+
+//@ iface Manager.RemoveMessage(self Manager, mailbox string, id string) (err error)
+//@   modifies ghost_nRemove(self), ghost_argBox(self), ghost_argID(self), ghost_lastErr(self)
+//@   ensures ghost_nRemove(self) == old(ghost_nRemove(self)) + 1 && ghost_argBox(self) == mailbox && ghost_argID(self) == id && ghost_lastErr(self) == err
+
+// SourceReader: a reader or an error, never neither.
+//@ iface Manager.SourceReader(self Manager, mailbox string, id string) (r io.ReadCloser, err error)
+//@   modifies ghost_nSource(self), ghost_argBox(self), ghost_argID(self), ghost_lastErr(self)
+//@   ensures (r != nil) != (err != nil)
+//@   ensures ghost_nSource(self) == old(ghost_nSource(self)) + 1 && ghost_argBox(self) == mailbox && ghost_argID(self) == id && ghost_lastErr(self) == err
+
+// Accessors of a rendered message (they dereference the envelope).
+//@ func (*Message).Attachments
+//@   requires Spec_msgOK(m)
+//@   ensures len(ret) == len(m.env.Inlines) + len(m.env.Attachments)
+//@   ensures forall k int :: { ret[k] } 0 <= k && k < len(ret) ==> ret[k] != nil
+//@   trusted
+//@ func (*Message).Header
+//@   requires Spec_msgOK(m)
+//@   serves C14
+//@ func (*Message).HTML
+//@   requires Spec_msgOK(m)
+//@   serves C14
+//@ func (*Message).Text
+//@   requires Spec_msgOK(m)
+//@   serves C14
+//@ func (*Message).MIMEErrors
+//@   requires Spec_msgOK(m)
+//@   ensures forall k int :: { ret[k] } 0 <= k && k < len(ret) ==> ret[k] != nil
+//@   trusted
+
+// StoreManager refines the Manager contract (given the Store interface contract).
+//@ func (*StoreManager).GetMessage
+//@   requires s.Store != nil
+//@   ensures[refinesManager] (ret0 != nil) != (ret1 != nil)
+//@   ensures ret0 != nil ==> Spec_msgOK(ret0)
+//@   serves C14
+
+//@ func (*StoreManager).SourceReader
+//@   requires s.Store != nil
+//@   ensures[refinesManager] (ret0 != nil) != (ret1 != nil)
+//@   serves C14 C02
+
+//@ func (*StoreManager).GetMetadata
+//@   requires s.Store != nil
+//@   ensures ret1 == nil ==> forall k int :: { ret0[k] } 0 <= k && k < len(ret0) ==> ret0[k] != nil
+//@   loop 1: invariant 0 <= ridx && ridx <= len(messages) && len(metas) == len(messages) && vcFresh(metas)
+//@   loop 1: invariant forall k int :: { metas[k] } 0 <= k && k < ridx ==> metas[k] != nil && vcFresh(metas[k])
+//@   loop 1: decreases len(messages) - ridx
+//@   serves C14
+
+//@ func MakeMetadata
+//@   requires m != nil
+//@   ensures ret != nil && vcFresh(ret) && ret.ID == m.ID() && ret.Mailbox == m.Mailbox() && ret.Subject == m.Subject() && ret.Size == m.Size()
+//@   serves C14 C16
+
+//@ func (*StoreManager).MarkSeen
+//@   requires s.Store != nil
+//@   serves C14
+//@ func (*StoreManager).PurgeMessages
+//@   requires s.Store != nil
+//@   serves C14
+//@ func (*StoreManager).RemoveMessage
+//@   requires s.Store != nil
+//@   modifies ghost_nremoved(s.Store), ghost_rmBoxes(s.Store), ghost_rmIDs(s.Store)
+//@   serves C14
+//@ func (*StoreManager).MailboxForAddress
+//@   requires s.AddrPolicy != nil && s.AddrPolicy.Config != nil
+//@   serves C14 C04
